@@ -558,6 +558,11 @@ fn load_sheet_rels<R: Read + std::io::Seek>(
     // relationship id ("rId4") -> target of the hyperlink
     let mut hyperlinks = HashMap::new();
     let v: Vec<&str> = path.split("/worksheets/").collect();
+    if v.len() < 2 {
+        return Err(XlsxError::Xml(format!(
+            "Unexpected path of a worksheet part: {path}"
+        )));
+    }
     let mut path = v[0].to_string();
     path.push_str("/worksheets/_rels/");
     path.push_str(v[1]);
